@@ -409,3 +409,49 @@ Fixpoint run_history (ffmt : Z -> Z -> list Z) (c : cfg) (sc : schema) (fuel : n
 Definition encode_again (ffmt : Z -> Z -> list Z) (c : cfg) (sc : schema) (fuel : nat) (id : Z) (v : rval)
     (n : N) (st : cache) : cache :=
   N.iter n (fun s => snd (encode ffmt c sc fuel id v s)) st.
+
+(* ------------------------------------------------------------------ Encoder.UseRegistry *)
+
+(* An encoder with a registry: the registry it is pointed at, and the cached nodes - which
+   schema they were read from and the remaining budget of that schema message.
+   nodemap.Map.UseRegistry replaces the registry and drops the cached nodes ([inval] = true, the
+   code as it is); with [inval] = false the nodes cached from the old registry stay in use
+   (the variant in which the map is kept).  In that variant ids missing from the stale cache
+   are reported not-found by the model (the Go code would load them from the new registry on
+   top of the stale entries); the variant exists only for the refutation. *)
+Record enc_state : Type := mkEnc { es_reg : schema; es_cache : option (schema * Z) }.
+
+Definition enc_init (reg : schema) : enc_state := mkEnc reg None.
+
+Definition use_registry (inval : bool) (reg : schema) (st : enc_state) : enc_state :=
+  mkEnc reg (if inval then None else es_cache st).
+
+Definition with_schema (sc : schema) (c : cache) : option (schema * Z) :=
+  match c with Some b => Some (sc, b) | None => None end.
+
+Definition encode_e (ffmt : Z -> Z -> list Z) (c : cfg) (fuel : nat) (id : Z) (v : rval)
+    (st : enc_state) : res (list Z) * enc_state :=
+  match es_cache st with
+  | Some (sc', b) =>
+    let (r, c') := encode ffmt c sc' fuel id v (Some b) in (r, mkEnc (es_reg st) (with_schema sc' c'))
+  | None =>
+    let (r, c') := encode ffmt c (es_reg st) fuel id v None in (r, mkEnc (es_reg st) (with_schema (es_reg st) c'))
+  end.
+
+Inductive enc_op : Type :=
+| OpEncode (id : Z) (v : rval)
+| OpUse (reg : schema).
+
+Definition enc_step (ffmt : Z -> Z -> list Z) (c : cfg) (inval : bool) (fuel : nat) (o : enc_op)
+    (st : enc_state) : enc_state :=
+  match o with
+  | OpEncode id v => snd (encode_e ffmt c fuel id v st)
+  | OpUse reg => use_registry inval reg st
+  end.
+
+Fixpoint run_ops (ffmt : Z -> Z -> list Z) (c : cfg) (inval : bool) (fuel : nat) (ops : list enc_op)
+    (st : enc_state) : enc_state :=
+  match ops with
+  | [] => st
+  | o :: r => run_ops ffmt c inval fuel r (enc_step ffmt c inval fuel o st)
+  end.
